@@ -196,6 +196,7 @@ def run_case(idx, rng, P, rep):
     # ---- hierarchy
     depth = rng.randint(1, 3)
     classes = []
+    name_overridden = []
     base = param.Parameterized
     for d in range(depth):
         ns = {}
@@ -208,6 +209,10 @@ def run_case(idx, rng, P, rep):
                       plain=param.Parameter(default=None))
             if rng.random() < 0.5:
                 ns['c'] = param.Parameter(default=Tok(), constant=True, instantiate=False)
+            if rng.random() < 0.2:
+                # a class may give `name` a default of its own (then no per-instance name is generated)
+                ns['name'] = param.String(default=f'fixed{idx}', constant=True)
+                name_overridden.append(True)
         else:
             if rng.random() < 0.4:
                 ns['c'] = param.Parameter(default=Tok(), constant=True)
@@ -407,7 +412,7 @@ def run_case(idx, rng, P, rep):
             elif c < 0.46:
                 kinds.append('class_set')
                 K = rng.choice(classes)
-                p = rng.choice(['c', 'cl', 'cr', 'cn'])
+                p = rng.choice(['c', 'cl', 'cr', 'cn'] + (['name'] if name_overridden else []))
                 v = new_value(p)
                 trace.append(('class_set', K.__name__, p, repr(v), f'open={open_blocks}'))
                 if open_blocks:
